@@ -27,6 +27,22 @@ Error ASMJIT_CDECL format_register(String& sb, FormatFlags, const BaseEmitter*, 
 }
 ASMJIT_END_SUB_NAMESPACE
 
+// Label bases / label operands: Formatter::format_label (decided by h_label.cpp) is replaced by a fixed-length token naming the id it was given.
+static int n_label_calls;
+ASMJIT_BEGIN_NAMESPACE
+namespace Formatter {
+Error format_label(String& sb, FormatFlags, const BaseEmitter*, uint32_t label_id) noexcept {
+  n_label_calls++;
+  char tok[5] = {'L', char('a' + (label_id & 15)), char('a' + ((label_id >> 4) & 15)), char('a' + ((label_id >> 8) & 15)), char('a' + ((label_id >> 12) & 15))};
+  if (label_id > 0xFFFFu) tok[0] = '?';
+  return sb.append(tok, 5);
+}
+}
+ASMJIT_END_NAMESPACE
+static inline void match_label_token(Cur& c, uint32_t id) {
+  c.ch('L'); c.ch(char('a' + (id & 15))); c.ch(char('a' + ((id >> 4) & 15))); c.ch(char('a' + ((id >> 8) & 15))); c.ch(char('a' + ((id >> 12) & 15)));
+}
+
 static inline void match_reg_token(Cur& c, RegType t, uint32_t id) {
   c.ch('R'); c.ch(char('a' + uint32_t(t))); c.ch(char('a' + (id & 15))); c.ch(char('a' + ((id >> 4) & 15)));
 }
@@ -54,18 +70,20 @@ template<uint32_t SEG> static inline void match_seg(Cur& c) {
 
 // BT / IT: type of the base / index register (kNone: absent); they travel through the token. OFFBITS bounds the displacement magnitude on the decimal path.
 template<RegType BT, RegType IT, uint32_t SIZE, uint32_t SEG, uint32_t AT, uint32_t SHIFT, unsigned OFFBITS, unsigned MAXDEC> static void mem_case() {
-  constexpr bool HAS_BASE = BT != RegType::kNone, HAS_INDEX = IT != RegType::kNone;
+  constexpr bool HAS_BASE = BT != RegType::kNone, HAS_INDEX = IT != RegType::kNone, LABEL_BASE = BT == RegType::kLabelTag;
   uint32_t bid = 0, iid = 0; const uint32_t shift = HAS_INDEX ? SHIFT : 0, at = AT;
   const RegType bt = BT, it = IT;   // constants: a symbolic type would make the whole operand signature (shift, segment, size, ...) symbolic
   x86::Mem m;
   int32_t off = int32_t(nondet_u32());
   if constexpr (HAS_BASE) {
-    bid = nondet_u8() & 31;
+    bid = LABEL_BASE ? uint32_t(nondet_u16()) : uint32_t(nondet_u8() & 31);
   }
   if constexpr (HAS_INDEX) {
     iid = nondet_u8() & 31;
   }
-  if constexpr (HAS_BASE && HAS_INDEX) m = x86::Mem(Reg::from_type_and_id(bt, bid), Reg::from_type_and_id(it, iid), shift, off, SIZE);
+  if constexpr (LABEL_BASE && HAS_INDEX) m = x86::Mem(Label(bid), Reg::from_type_and_id(it, iid), shift, off, SIZE);
+  else if constexpr (LABEL_BASE) m = x86::Mem(Label(bid), off, SIZE);
+  else if constexpr (HAS_BASE && HAS_INDEX) m = x86::Mem(Reg::from_type_and_id(bt, bid), Reg::from_type_and_id(it, iid), shift, off, SIZE);
   else if constexpr (HAS_BASE) m = x86::Mem(Reg::from_type_and_id(bt, bid), off, SIZE);
   else if constexpr (HAS_INDEX) m = x86::Mem(uint64_t(uint32_t(off)), Reg::from_type_and_id(it, iid), shift, SIZE);
   else m = x86::Mem(uint64_t(nondet_u64()), SIZE);
@@ -78,11 +96,11 @@ template<RegType BT, RegType IT, uint32_t SIZE, uint32_t SEG, uint32_t AT, uint3
   if (!(hex && mag > 9)) V_ASSUME(mag < (uint64_t(1) << OFFBITS));
 
   String sb; make_string<255>(sb);
-  n_reg_calls = 0; no_heap::active = true;
+  n_reg_calls = 0; n_label_calls = 0; no_heap::active = true;
   Error e = x86::FormatterInternal::format_operand(sb, ff, nullptr, Arch::kX64, m);
   no_heap::active = false;
   V_ASSERT(e == Error::kOk && no_heap::n_calls == 0, "x86 memory operand formatting succeeds within the buffer given");
-  V_ASSERT(n_reg_calls == int(HAS_BASE) + int(HAS_INDEX), "one register is printed per register of the operand");
+  V_ASSERT(n_reg_calls == int(HAS_BASE && !LABEL_BASE) + int(HAS_INDEX) && n_label_calls == int(LABEL_BASE), "one register is printed per register of the operand and one label per label base");
 
   Cur c(sb.data(), sb.size());
   match_size<SIZE>(c);
@@ -90,7 +108,7 @@ template<RegType BT, RegType IT, uint32_t SIZE, uint32_t SEG, uint32_t AT, uint3
   c.ch('[');
   if (at == 1) c.lit("abs ");
   if (at == 2) c.lit("rel ");
-  if constexpr (HAS_BASE) match_reg_token(c, bt, bid);
+  if constexpr (LABEL_BASE) match_label_token(c, bid); else if constexpr (HAS_BASE) match_reg_token(c, bt, bid);
   if constexpr (HAS_INDEX) {
     if (HAS_BASE) c.ch('+');
     match_reg_token(c, it, iid);
@@ -106,7 +124,7 @@ template<RegType BT, RegType IT, uint32_t SIZE, uint32_t SEG, uint32_t AT, uint3
   V_WITNESS("x86 mem formatted");
 }
 
-constexpr RegType NONE = RegType::kNone, GP64 = RegType::kGp64, GP32 = RegType::kGp32, GP16 = RegType::kGp16, PC = RegType::kPC, XMM = RegType::kVec128, YMM = RegType::kVec256, ZMM = RegType::kVec512;
+constexpr RegType LAB = RegType::kLabelTag, NONE = RegType::kNone, GP64 = RegType::kGp64, GP32 = RegType::kGp32, GP16 = RegType::kGp16, PC = RegType::kPC, XMM = RegType::kVec128, YMM = RegType::kVec256, ZMM = RegType::kVec512;
 // One harness per combination of the constant dimensions (a dispatch over them inside one harness costs the solver far more than the sum
 // of its cases). Each dimension takes all its values while the others are fixed: the formatter appends size keyword, segment, marker,
 // base, index, scale and displacement one after the other, independently. Naming: h_x86mem_<shape>_<size>_<seg>_<marker>_<scale>.
@@ -145,5 +163,22 @@ HARNESS h_x86mem_b16i16_s2_g0_a0_x0() { mem_case<GP16, GP16, 2, 0, 0, 0, 12, 5>(
 HARNESS h_x86mem_vsibx_s4_g0_a0_x2() { mem_case<GP64, XMM, 4, 0, 0, 2, 12, 5>(); }
 HARNESS h_x86mem_vsiby_s8_g0_a0_x3() { mem_case<GP32, YMM, 8, 0, 0, 3, 12, 5>(); }
 HARNESS h_x86mem_vsibz_s0_g0_a0_x1() { mem_case<NONE, ZMM, 0, 0, 0, 1, 12, 5>(); }
+HARNESS h_x86mem_lab_s4_g0_a0_x0() { mem_case<LAB, NONE, 4, 0, 0, 0, 12, 5>(); }
+HARNESS h_x86mem_labi_s8_g0_a2_x3() { mem_case<LAB, GP64, 8, 0, 2, 3, 12, 5>(); }
 HARNESS h_x86mem_bi_s8_g5_a0_x3_wide() { mem_case<GP64, GP64, 8, 5, 0, 3, 31, 10>(); }
 HARNESS h_x86mem_abs_s4_g0_a1_x0_wide() { mem_case<NONE, NONE, 4, 0, 1, 0, 40, 13>(); }
+
+// a label operand: the text is the label's (here: the token of the id given)
+HARNESS h_x86op_label() {
+  uint32_t id = nondet_u16();
+  String sb; make_string<255>(sb);
+  n_reg_calls = 0; n_label_calls = 0; no_heap::active = true;
+  Error e = x86::FormatterInternal::format_operand(sb, any_flags(), nullptr, Arch::kX64, Label(id));
+  no_heap::active = false;
+  V_ASSERT(e == Error::kOk && no_heap::n_calls == 0 && n_label_calls == 1 && n_reg_calls == 0, "x86 label operand formatting succeeds within the buffer given");
+  Cur c(sb.data(), sb.size());
+  match_label_token(c, id);
+  V_ASSERT(c.at_end(), "x86 label operand text is the label of the id given");
+  observe_text<8>(sb);
+  V_WITNESS("x86 label operand formatted");
+}
